@@ -194,7 +194,7 @@ class SimKernel:
         self.world = world
         self.clock = world.clock
         self.procs = {}
-        self.next_pid = 5000
+        self.next_pid = 40000       # above pid_max (32768): can never name a real process
         self.log = []            # (t, kind, pid, ...) kinds: spawn signal exit reaped
         self.calls = 0           # numbered kernel-call boundaries
         self.inject = {}         # boundary number -> callable(kernel)
@@ -591,10 +591,16 @@ _INSTALLED = False
 _AUDIT = {'on': False, 'hits': []}
 
 
+class ContainmentBreach(RuntimeError):
+    pass
+
+
 def _audit(event, args):
     if _AUDIT['on'] and event in ('os.kill', 'os.killpg', 'os.fork', 'os.forkpty', 'os.posix_spawn',
                                   'subprocess.Popen', 'os.system', 'os.exec', 'os.spawn'):
-        _AUDIT['hits'].append(event)
+        _AUDIT['hits'].append((event, tuple(a if isinstance(a, (int, str)) else type(a).__name__ for a in args[:2])))
+        # the daemon under simulation must never reach the real kernel: block the call
+        raise ContainmentBreach('%s%r attempted while a simulated world is current' % (event, args[:2]))
 
 
 def install():
